@@ -478,6 +478,11 @@ func (o *Oracle) judgeProxyCallback(e *Exchange, pol *Policy) {
 	if codeSess == nil || !redeemOK {
 		o.violate(e, "C06.A1-flow-binding", fmt.Sprintf("session set although code genuine=%v redeemed=%v", codeSess != nil, redeemOK), "variant", "code")
 	}
+	if _, known := o.sealed[code]; !known && code != "" {
+		// C02.A4 at the proxy's side of the code: a string the authenticator never issued yielded a session here
+		o.violate(e, "C02.A4-only-unmodified-values-open", fmt.Sprintf("a code that was never issued by sso-auth yielded a session at the proxy's callback (derived by %q)", o.corrupted[code]),
+			"kind", "auth-code-at-callback", "how", o.corrupted[code])
+	}
 	if q.Get("error") != "" {
 		o.violate(e, "C06.A1-flow-binding", "session set although the callback carried an error parameter", "variant", "error-param")
 	}
